@@ -7,7 +7,7 @@ BASE = dict(PidMax=3, TPS=2, UnitsOn="TRUE", CfgSet="Cfg_One", SubmitSet="Sub_Ac
             Which='{"C01"}', KnownRules='{}', ExportDepth=0, ExportEvery=1, EngDefects='{}')
 
 STATE_INVARIANTS = ["NoPanic", "MonitorsQuiet", "UserOpsTracked", "NoLiveIdTwiceInAQueue", "AllocConsistent", "PendingBound",
-                    "NoStrandedWork", "ReceiveMaximumRespected", "Witness", "Export"]
+                    "NoStrandedWork", "ReceiveMaximumRespected", "Witness"]
 
 def inst(**kw):
     d = dict(BASE); d.update(kw); return d
@@ -59,7 +59,7 @@ INSTANCES = {
          "thorough": [inst(Which='{"C16"}', SubmitSet="Sub_Validation", ConnackSet="Ck_Caps", MaxConns=2, MaxOps=3, KnownRules='{"timing"}'),
                       inst(Which='{"C16", "C17"}', CfgSet="Cfg_AliasExact", SubmitSet="Sub_Exact", ConnackSet="Ck_Exact", MaxConns=2, MaxOps=3, Caps="{3}", KnownRules='{"timing"}', _export_every=3)]},
  "C17": {"quick": [inst(Which='{"C17"}', CfgSet="Cfg_Alias", SubmitSet="Sub_Alias", ConnackSet="Ck_Alias", MaxOps=3, MaxConns=2, Caps="{3}"),
-                   inst(Which='{"C17"}', CfgSet="Cfg_AliasIn", InPubSet="In_Alias", MaxIn=3, MaxOps=0, MaxConns=2, Caps="{3}", ConnackSet="Ck_Plain")],
+                   inst(Which='{"C17"}', CfgSet="Cfg_AliasIn", InPubSet="In_Alias", MaxIn=3, MaxOps=0, MaxConns=2, Caps="{3}", ConnackSet="Ck_Plain", _export_every=1)],   # 985 states: every transition exported
          "thorough": [inst(Which='{"C17"}', CfgSet="Cfg_Alias", SubmitSet="Sub_Alias", ConnackSet="Ck_Alias", InPubSet="In_Alias", MaxIn=2, MaxOps=3, MaxConns=2)]},
  "C18": {"quick": [inst(Which='{"C18"}', CfgSet="Cfg_Retries", SubmitSet="Sub_Timeouts2", Horizon=3, AckHows='{"normal", "fail"}')],
          "thorough": [inst(Which='{"C18"}', CfgSet="Cfg_PoliciesRetries", SubmitSet="Sub_Timeouts", Horizon=4, MaxConns=3, AckHows='{"normal", "fail"}')]},
@@ -88,6 +88,7 @@ def cfg_text(d, invariants=None):
     lines.append("VIEW View")
     for i in (invariants or STATE_INVARIANTS) + list(d.get("_more_invariants", [])):
         lines.append("INVARIANT " + i)
+    lines.append("ACTION_CONSTRAINT ExportEdge")
     lines.append("CHECK_DEADLOCK FALSE")
     return "\n".join(lines) + "\n"
 
@@ -98,4 +99,4 @@ if __name__ == "__main__":
 
 # depth from which decision histories are exported as scripts (S1): one state in EXPORT_EVERY of those deeper than this
 EXPORT_DEPTH = {pid: {"quick": 6, "thorough": 6} for pid in INSTANCES}
-EXPORT_EVERY = {"quick": 13, "thorough": 5}
+EXPORT_EVERY = {"quick": 41, "thorough": 17}      # of the transitions generated (edge export)
